@@ -1,4 +1,5 @@
 """C03 - addition / subtraction are physically sound, also for derived units (DESIGN.md 4, C03)."""
+import itertools
 from fractions import Fraction as Fr
 
 from .. import probe
@@ -271,6 +272,38 @@ def zero_derived_operands(ck, db):
                     ck.bad("raised:zero-derived-operand", case, {"error": "%s: %s" % (type(ex).__name__, str(ex)[:160])})
 
 
+def array_layouts(ck, db):
+    """numpy operands of several dimensions in every memory layout (C order, Fortran order, a transposed view, a strided slice),
+    the right operand in another unit: the sum at [i, j] is the sum of the amounts at [i, j]"""
+    import numpy as np
+    from barril.units import Array
+
+    ctx = ck.ctx
+    base_l, base_r = np.arange(12, dtype=float).reshape(3, 4) + 1.0, (np.arange(12, dtype=float).reshape(3, 4) * 10.0 - 30.0)
+    layouts = [("C order", lambda z: z.copy()), ("Fortran order", np.asfortranarray), ("transposed view", lambda z: z.T.copy().T if False else np.ascontiguousarray(z.T).T),
+               ("strided slice", lambda z: np.repeat(np.repeat(z, 2, axis=0), 2, axis=1)[::2, ::2])]  # fmt: skip
+    for u, v, derive in (("m", "cm", False), ("K", "degC", False), ("m", "km", True), ("s", "min", False)):
+        qt = db.GetQuantityType(u)
+        for (ln, lf), (rn, rf) in itertools.product(layouts, layouts):
+            for sym, sign in (("+", 1), ("-", -1)):
+                ctx.ev()
+                case = {"layouts": [ln, rn], "units": [u, v], "per second": derive, "op": sym}
+                ctx.nt(("layouts", ln, rn, u, v, derive, sym))
+                try:
+                    a, b = Array(lf(base_l), u), Array(rf(base_r), v)
+                    if derive:
+                        per = Array(np.full((3, 4), 2.0), "s")
+                        a, b = a / per, b / per
+                    res = a + b if sign == 1 else a - b
+                    got = np.asarray(res.GetValues(), dtype=float)
+                    k = 0.5 if derive else 1.0
+                    want = np.array([[base_l[i, j] * k + sign * db.Convert(qt, v, u, float(base_r[i, j])) * k for j in range(4)] for i in range(3)])
+                    if got.shape != (3, 4) or not np.allclose(got, want, rtol=1e-12, atol=1e-12):
+                        ck.bad("array-layout:value:%s" % sym, case, {"got": got.tolist(), "want": want.tolist()})
+                except Exception as ex:
+                    ck.bad("raised:array-layout", case, {"error": "%s: %s" % (type(ex).__name__, str(ex)[:160])})
+
+
 def cancelling_categories(ck, db, r, n):
     """a right operand whose categories partly cancel inside one quantity type (length**2 / diameter is a length, its
     quantity-type string reads 'length') added to a plain amount of that type in another unit - Scalars and Arrays."""
@@ -358,6 +391,7 @@ def run(ctx):
             cancelling_categories(ck, db, ctx.rng("cancel"), 2 if ctx.tier == "quick" else 12)
             integer_ndarray_operands(ck, db)
             zero_derived_operands(ck, db)
+            array_layouts(ck, db)
     ctx.inconclusive_if(probe.COUNTS["UnitDatabase.Sum"] == 0 or probe.COUNTS["UnitDatabase.Subtract"] == 0, "Sum/Subtract never reached")
 
 
